@@ -3,7 +3,7 @@ CONSTANTS
   Export = TRUE
   Fams = {"hf", "hb", "rt"}
   SliceLo = 0
-  SliceHi = 255
+  SliceHi = 1023
 INIT Init
 NEXT Next
 INVARIANT Law
